@@ -1,16 +1,761 @@
-//! C13 — PCZT encoding, combination and roles preserve the transaction. (scaffold)
-mod base;
+//! C13 — PCZT encoding, combination and roles preserve the transaction.
+//!
+//! Base PCZTs are built for real (`Builder::build_for_pczt` / `DeferredPcztBuilder` ->
+//! `Creator::build_from_parts` -> `IoFinalizer`), in both transaction formats, without proving.
+//! Party copies are derived from a base by *recipes* (which optional fields a party removed with the
+//! Redactor, which it added with the Updater / Signer / low-level Signer / Spend Finalizer). Oracles:
+//!
+//! * encoding: serialize -> parse -> serialize fixed point, parsed == original (forced-v2 bytes),
+//!   header version 1 iff the v1 conversion succeeds; mutated / arbitrary bytes never panic and
+//!   accepted bytes re-serialise to a fixed point (`check_pczt_bytes`, reusable by a fuzz target);
+//! * combination: every permutation and random bracketing of `Combiner::combine` yields the value the
+//!   harness materialises from the field-wise UNION OF THE RECIPES; idempotence; absorption;
+//!   a conflicting value on any field kind, or a copy of another transaction => Err in every order;
+//! * roles: the txid implied by the PCZT (`pczt_txid`, `into_effects`) equals the id computed from the
+//!   builder's parts, before and after every role in random order; thorough tier: prove + extract.
 
-fn main() {
-    let t0 = std::time::Instant::now();
-    for i in 0..40u32 {
-        match base::build_base(1, i) {
-            Ok(b) => println!(
-                "base {i}: {:?} ms={} tin={} tout={} ss={} so={} oa={} ia={} txid_parts={}",
-                b.shape.fmt, b.build_ms, b.n_tin, b.n_tout, b.n_sspend, b.n_sout, b.n_oact, b.n_iact, b.txid_parts
-            ),
-            Err(e) => println!("base {i}: FAILED {e}"),
+mod base;
+mod recipe;
+
+use std::collections::{BTreeMap, BTreeSet};
+use std::sync::Arc;
+
+use pczt::roles::combiner::{Combiner, Error as CombineError};
+use pczt::Pczt;
+use proptest::prelude::*;
+use rand_chacha::ChaCha20Rng;
+use rand_core::{RngCore, SeedableRng};
+use vcore::{catch, hash64, pick_index, vensure, vensure_eq, vfail, CaseResult, Ctx, Fail, Obs};
+use zcash_pool_migration::pczt_txid::pczt_txid;
+
+use base::Base;
+use recipe::{materialise, ser2, set_vals, union, universe, Eff, Key, Recipe, St, Union, OA};
+
+const MAX_COPIES: usize = 5;
+
+// ---------------------------------------------------------------------------------------------
+// Combination
+// ---------------------------------------------------------------------------------------------
+
+#[derive(Clone, Debug)]
+struct Touch {
+    key_sel: u32,
+    /// prefer a key some role can set
+    settable: bool,
+    /// per copy: 0 keep, 1 remove, 2 set
+    st: [u8; MAX_COPIES],
+    val: u8,
+}
+
+#[derive(Clone, Debug)]
+struct CombineCase {
+    base_sel: u32,
+    n: usize,
+    touches: Vec<Touch>,
+    /// per copy: run the Spend Finalizer
+    fin: [bool; MAX_COPIES],
+    /// per copy: bit 0 compact the Orchard bundle, bit 1 the Ironwood bundle
+    compact: [u8; MAX_COPIES],
+    /// per copy: pass through `serialize` -> `parse` before combining
+    roundtrip: [bool; MAX_COPIES],
+    /// inject two different values for one key into two copies
+    conflict: Option<(u32, u8, u8, bool)>,
+    /// add a copy of a different transaction
+    foreign: Option<u32>,
+    order_seed: u64,
+}
+
+fn arb_touch() -> impl Strategy<Value = Touch> {
+    (
+        any::<u32>(),
+        prop::bool::weighted(0.6),
+        prop::array::uniform5(prop_oneof![4 => Just(0u8), 3 => Just(1u8), 3 => Just(2u8)]),
+        prop_oneof![12 => Just(0u8), 4 => Just(1u8), 2 => Just(2u8), 1 => Just(4u8), 1 => Just(5u8)],
+    )
+        .prop_map(|(key_sel, settable, st, val)| Touch { key_sel, settable, st, val })
+}
+
+fn arb_combine_case() -> impl Strategy<Value = CombineCase> {
+    (
+        any::<u32>(),
+        2usize..=MAX_COPIES,
+        prop::collection::vec(arb_touch(), 2..14),
+        prop::array::uniform5(prop::bool::weighted(0.12)),
+        prop::array::uniform5(prop_oneof![20 => Just(0u8), 2 => Just(1u8), 2 => Just(2u8), 2 => Just(3u8), 1 => Just(4u8), 1 => Just(5u8), 1 => Just(6u8)]),
+        prop::array::uniform5(prop::bool::weighted(0.3)),
+        prop::option::weighted(0.2, (any::<u32>(), 0u8..MAX_COPIES as u8, 1u8..MAX_COPIES as u8, any::<bool>())),
+        prop::option::weighted(0.06, any::<u32>()),
+        any::<u64>(),
+    )
+        .prop_map(|(base_sel, n, touches, fin, compact, roundtrip, conflict, foreign, order_seed)| CombineCase {
+            base_sel,
+            n,
+            touches,
+            fin,
+            compact,
+            roundtrip,
+            conflict,
+            foreign,
+            order_seed,
+        })
+}
+
+fn n_bases(ctx: &Ctx) -> usize {
+    ctx.tier.pick(192, 4096)
+}
+
+fn pick_key(b: &Base, uni: &[Key], settable: &[Key], t: &Touch) -> Key {
+    let _ = b;
+    if t.settable && !settable.is_empty() {
+        settable[pick_index(t.key_sel, settable.len())]
+    } else {
+        uni[pick_index(t.key_sel, uni.len())]
+    }
+}
+
+fn build_recipes(b: &Base, c: &CombineCase) -> Vec<Recipe> {
+    let uni = universe(b);
+    let settable: Vec<Key> = uni.iter().copied().filter(|k| set_vals(b, k) > 0).collect();
+    let mut recipes: Vec<Recipe> = (0..c.n).map(|_| Recipe::default()).collect();
+    let mut seen = BTreeSet::new();
+    for t in &c.touches {
+        let k = pick_key(b, &uni, &settable, t);
+        if !seen.insert(k) {
+            continue;
+        }
+        // the ciphertext representation is a required field: parties that disagree on it cannot be
+        // combined, so mostly all of them agree (val >= 4: let them differ)
+        let uniform = matches!(k, Key::OAct(_, _, OA::EncRepr)) && t.val < 4;
+        for (ci, r) in recipes.iter_mut().enumerate() {
+            let st = match t.st[if uniform { 0 } else { ci }] {
+                0 => St::Keep,
+                1 => St::Absent,
+                _ => St::Set(t.val),
+            };
+            r.st.insert(k, st);
         }
     }
-    println!("total {:?}", t0.elapsed());
+    for (ci, r) in recipes.iter_mut().enumerate() {
+        if c.fin[ci] && b.n_tin > 0 {
+            r.fin = Some(0);
+        }
+        for (bit, pool, n) in [(1u8, recipe::Pool::Orchard, b.n_oact), (2u8, recipe::Pool::Ironwood, b.n_iact)] {
+            // compact[0] decides for everybody unless bit 2 of the copy's own entry says otherwise
+            let mine = if c.compact[ci] & 4 != 0 { c.compact[ci] } else { c.compact[0] };
+            if mine & bit != 0 {
+                for i in 0..n as u8 {
+                    r.st.insert(Key::OAct(pool, i, OA::EncRepr), St::Set(1));
+                    r.st.insert(Key::OAct(pool, i, OA::CvNet), St::Absent);
+                    r.st.insert(Key::OAct(pool, i, OA::Cmx), St::Absent);
+                }
+            }
+        }
+    }
+    // conflict injection: two copies set different values on one settable key
+    if let Some((ksel, a, d, fin_conflict)) = c.conflict {
+        let a = a as usize % c.n;
+        let bb = (a + 1 + (d as usize - 1) % (c.n - 1)) % c.n;
+        if fin_conflict && b.n_tin > 0 {
+            // two parties finalize the same inputs from different signatures
+            recipes[a].fin = Some(0);
+            recipes[bb].fin = Some(1);
+            for r in recipes.iter_mut() {
+                let ks: Vec<Key> = r.st.keys().copied().filter(|k| matches!(k, Key::TInScriptSig(_))).collect();
+                for k in ks {
+                    r.st.remove(&k);
+                }
+            }
+        } else {
+            let multi: Vec<Key> = settable.iter().copied().filter(|k| set_vals(b, k) >= 2).collect();
+            if !multi.is_empty() {
+                let k = multi[pick_index(ksel, multi.len())];
+                recipes[a].st.insert(k, St::Set(0));
+                recipes[bb].st.insert(k, St::Set(1));
+            }
+        }
+    }
+    for r in recipes.iter_mut() {
+        r.normalise(b);
+    }
+    recipes
+}
+
+fn combine(list: Vec<Pczt>) -> Result<Result<Pczt, CombineError>, Fail> {
+    catch(|| Combiner::new(list).combine()).map_err(|p| Fail::new("combiner-panic", format!("Combiner::combine panicked: {p}")))
+}
+
+/// Random bracketing: split into contiguous groups, combine each group recursively, then the results.
+fn combine_tree(items: Vec<Pczt>, rng: &mut ChaCha20Rng) -> Result<Result<Pczt, CombineError>, Fail> {
+    if items.len() <= 2 {
+        return combine(items);
+    }
+    let groups = 2 + (rng.next_u32() as usize) % (items.len() - 1);
+    // choose `groups - 1` cut points
+    let mut cuts: BTreeSet<usize> = BTreeSet::new();
+    while cuts.len() < groups - 1 {
+        cuts.insert(1 + (rng.next_u32() as usize) % (items.len() - 1));
+    }
+    let mut parts = vec![];
+    let mut cur = vec![];
+    for (i, it) in items.into_iter().enumerate() {
+        if cuts.contains(&i) {
+            parts.push(std::mem::take(&mut cur));
+        }
+        cur.push(it);
+    }
+    parts.push(cur);
+    let mut combined = vec![];
+    for part in parts {
+        match combine_tree(part, rng)? {
+            Ok(p) => combined.push(p),
+            Err(e) => return Ok(Err(e)),
+        }
+    }
+    combine(combined)
+}
+
+fn permutations(n: usize) -> Vec<Vec<usize>> {
+    fn rec(cur: &mut Vec<usize>, used: &mut Vec<bool>, n: usize, out: &mut Vec<Vec<usize>>) {
+        if cur.len() == n {
+            out.push(cur.clone());
+            return;
+        }
+        for i in 0..n {
+            if !used[i] {
+                used[i] = true;
+                cur.push(i);
+                rec(cur, used, n, out);
+                cur.pop();
+                used[i] = false;
+            }
+        }
+    }
+    let mut out = vec![];
+    rec(&mut vec![], &mut vec![false; n], n, &mut out);
+    out
+}
+
+fn describe_recipes(rs: &[Recipe]) -> String {
+    let mut s = String::new();
+    for (i, r) in rs.iter().enumerate() {
+        s.push_str(&format!("copy{i}: fin={:?} {:?}; ", r.fin, r.st));
+    }
+    s
+}
+
+fn txid_of(p: &Pczt) -> Option<zcash_protocol::TxId> {
+    pczt_txid(p).ok()
+}
+
+fn check_combine(ctx: &Ctx, c: &CombineCase) -> CaseResult {
+    let nb = n_bases(ctx);
+    let bidx = pick_index(c.base_sel, nb) as u32;
+    let b: Arc<Base> = base::base(ctx.seed, bidx);
+    let recipes = build_recipes(&b, c);
+    let desc = || format!("base {bidx} {:?}; {}", b.shape, describe_recipes(&recipes));
+
+    let mut copies = vec![];
+    for r in &recipes {
+        copies.push(materialise(&b, r).map_err(|f| Fail::new(f.signature, format!("{} [{}]", f.msg, desc())))?);
+    }
+    // every copy still describes the base transaction
+    for (i, cp) in copies.iter().enumerate() {
+        if let Some(t) = txid_of(cp) {
+            vensure_eq!(t, b.txid_parts, "copy-txid-changed", "copy {i} implies another transaction id [{}]", desc());
+        }
+    }
+    let mut rt = 0u64;
+    let mut rt_skipped = 0u64;
+    for (i, cp) in copies.iter_mut().enumerate() {
+        if c.roundtrip[i] {
+            // Known finding `v1-sapling-absent-anchor-placeholder` (checked in the encoding sub-check and
+            // the regression list): the v1 encoding turns an ABSENT Sapling anchor of a spend-less bundle
+            // into Some([0; 32]). Such copies are combined without the byte round trip here.
+            if b.shape.fmt == base::Fmt::V5 && b.n_sspend == 0 && recipes[i].eff(&b, &Key::SAnchor) == Eff::Absent {
+                rt_skipped += 1;
+                continue;
+            }
+            let bytes = cp.clone().serialize().map_err(|e| Fail::new("serialize-failed", format!("{e:?} [{}]", desc())))?;
+            *cp = Pczt::parse(&bytes).map_err(|e| Fail::new("own-encoding-rejected", format!("{e:?} [{}]", desc())))?;
+            rt += 1;
+        }
+    }
+
+    let mut rng = ChaCha20Rng::seed_from_u64(c.order_seed);
+    let mut all = copies.clone();
+    let mut expect_conflict = None;
+    if let Some(fsel) = c.foreign {
+        // a copy of ANOTHER transaction (same generator, different index)
+        let other = (bidx as usize + 1 + pick_index(fsel, nb - 1)) % nb;
+        let ob = base::base(ctx.seed, other as u32);
+        all.push(ob.pczt.clone());
+        expect_conflict = Some(format!("copy of another transaction (base {other})"));
+    }
+    let u = union(&b, &recipes);
+    if let Union::Conflict(k, v1, v2) = &u {
+        expect_conflict.get_or_insert(format!("{k:?} carries values {v1} and {v2}"));
+    }
+    let n = all.len();
+    let mut orders = if n <= 4 {
+        permutations(n)
+    } else {
+        let mut v = vec![(0..n).collect::<Vec<_>>(), (0..n).rev().collect()];
+        while v.len() < 24 {
+            let mut p: Vec<usize> = (0..n).collect();
+            for i in (1..n).rev() {
+                p.swap(i, (rng.next_u32() as usize) % (i + 1));
+            }
+            v.push(p);
+        }
+        v
+    };
+    // a few of them are evaluated with random bracketings as well
+    let n_tree = orders.len().min(6);
+    let tree_orders: Vec<Vec<usize>> = (0..n_tree).map(|i| orders[(i * 7 + 3) % orders.len()].clone()).collect();
+    let flat = orders.len();
+    orders.extend(tree_orders);
+
+    let mut results: Vec<Vec<u8>> = vec![];
+    let mut first: Option<Pczt> = None;
+    for (oi, ord) in orders.iter().enumerate() {
+        let list: Vec<Pczt> = ord.iter().map(|i| all[*i].clone()).collect();
+        let r = if oi < flat { combine(list)? } else { combine_tree(list, &mut rng)? };
+        match (&expect_conflict, r) {
+            (Some(why), Ok(_)) => {
+                vfail!("conflict-accepted", "order {ord:?}{} combined although {why} [{}]", if oi < flat { "" } else { " (bracketed)" }, desc())
+            }
+            (Some(_), Err(CombineError::DataMismatch)) => {}
+            (Some(_), Err(e)) => vfail!("conflict-wrong-error", "order {ord:?}: {e:?} [{}]", desc()),
+            (None, Err(e)) => {
+                vfail!("combine-rejected-compatible", "order {ord:?}{} failed with {e:?} on copies of one transaction without conflicting fields [{}]", if oi < flat { "" } else { " (bracketed)" }, desc())
+            }
+            (None, Ok(p)) => {
+                results.push(ser2(&p));
+                if first.is_none() {
+                    first = Some(p);
+                }
+            }
+        }
+    }
+
+    let mut diff_kinds = BTreeSet::new();
+    let mut diff_bundles = BTreeSet::new();
+    for k in recipe::touched(&b, &recipes) {
+        let effs: BTreeSet<Eff> = recipes.iter().map(|r| r.eff(&b, &k)).collect();
+        if effs.len() > 1 {
+            diff_kinds.insert(k.kind());
+            diff_bundles.insert(k.bundle());
+        }
+    }
+    let nontrivial = c.n >= 2 && diff_kinds.len() >= 2 && diff_bundles.len() >= 2;
+    let mut obs = Obs::new(nontrivial)
+        .key(hash64(format!("{bidx}|{}", describe_recipes(&recipes)).as_bytes()))
+        .count("orders", orders.len() as u64)
+        .count("roundtripped-copies", rt)
+        .count("roundtrip-skipped-known-placeholder", rt_skipped)
+        .count("differing-field-kinds", diff_kinds.len() as u64)
+        .label(match b.shape.fmt {
+            base::Fmt::V5 => "base-v5",
+            base::Fmt::V6 => "base-v6",
+            base::Fmt::V6Deferred => "base-v6-deferred",
+        })
+        .label_if(recipes.iter().any(|r| r.fin.is_some()), "has-spend-finalizer-copy")
+        .label_if(c.n >= 4, "copies>=4");
+
+    if let Some(_why) = expect_conflict {
+        return Ok(obs.label("conflict").label_if(c.foreign.is_some(), "conflict-foreign-tx").label_if(matches!(u, Union::Conflict(..)), "conflict-field"));
+    }
+    let Union::Ok(urecipe) = u else { unreachable!() };
+    let expected = materialise(&b, &urecipe).map_err(|f| Fail::new(f.signature, format!("expected union: {} [{}] union={urecipe:?}", f.msg, desc())))?;
+    let exp_bytes = ser2(&expected);
+    // Known finding `combine-drops-bsk`: a bundle's `bsk` carried only by a later input is dropped.
+    // Classified precisely: every order yields either the union or the union without exactly the bsk
+    // values on which the copies differ.
+    let bsk_split: Vec<Key> = [Key::SBsk, Key::OBsk(recipe::Pool::Orchard), Key::OBsk(recipe::Pool::Ironwood)]
+        .into_iter()
+        .filter(|k| {
+            let e: BTreeSet<Eff> = recipes.iter().map(|r| r.eff(&b, k)).collect();
+            e.len() > 1
+        })
+        .collect();
+    if !bsk_split.is_empty() && results.iter().any(|r| *r != exp_bytes) {
+        let mut variants = vec![exp_bytes.clone()];
+        for mask in 1u32..(1 << bsk_split.len()) {
+            let mut r2 = urecipe.clone();
+            for (i, k) in bsk_split.iter().enumerate() {
+                if mask & (1 << i) != 0 {
+                    r2.st.insert(*k, St::Absent);
+                }
+            }
+            variants.push(ser2(&materialise(&b, &r2)?));
+        }
+        if results.iter().all(|r| variants.contains(r)) {
+            let bad = results.iter().position(|r| *r != exp_bytes).unwrap();
+            vfail!(
+                "combine-drops-bsk",
+                "order {:?} loses {:?} although an input carries it (result is otherwise the union of the inputs) [{}]",
+                orders[bad],
+                bsk_split,
+                desc()
+            );
+        }
+    }
+    // one result for every order and bracketing
+    for (i, r) in results.iter().enumerate() {
+        vensure!(
+            *r == results[0],
+            "combine-order-dependent",
+            "order {:?} gives a different PCZT than order {:?} (lengths {} / {}) [{}]",
+            orders[i],
+            orders[0],
+            r.len(),
+            results[0].len(),
+            desc()
+        );
+    }
+    // ... and it is the union of the recipes
+    if exp_bytes != results[0] {
+        let got = first.as_ref().unwrap();
+        vfail!(
+            "combine-not-union",
+            "combined PCZT differs from the union of the inputs' fields ({} vs {} bytes); union recipe {urecipe:?}; first differing debug line: {} [{}]",
+            results[0].len(),
+            exp_bytes.len(),
+            first_diff(&format!("{got:#?}"), &format!("{expected:#?}")),
+            desc()
+        );
+    }
+    let result = first.unwrap();
+    if let Some(t) = txid_of(&result) {
+        vensure_eq!(t, b.txid_parts, "combine-txid-changed", "combined PCZT implies another transaction id [{}]", desc());
+        obs = obs.label("result-txid-checked");
+    }
+    // idempotence and absorption
+    for (i, cp) in copies.iter().enumerate() {
+        let cc = combine(vec![cp.clone(), cp.clone()])?.map_err(|e| Fail::new("combine-not-idempotent", format!("combine(c,c) failed: {e:?} (copy {i}) [{}]", desc())))?;
+        vensure!(ser2(&cc) == ser2(cp), "combine-not-idempotent", "combine(c,c) != c for copy {i} [{}]", desc());
+        let single = combine(vec![cp.clone()])?.map_err(|e| Fail::new("combine-not-idempotent", format!("combine([c]) failed: {e:?} [{}]", desc())))?;
+        vensure!(ser2(&single) == ser2(cp), "combine-not-idempotent", "combine([c]) != c for copy {i} [{}]", desc());
+        for (a, bb) in [(result.clone(), cp.clone()), (cp.clone(), result.clone())] {
+            let ab = combine(vec![a, bb])?.map_err(|e| Fail::new("combine-not-absorbing", format!("combine(result, copy {i}) failed: {e:?} [{}]", desc())))?;
+            vensure!(ser2(&ab) == results[0], "combine-not-absorbing", "combining the result with its own input {i} changes it [{}]", desc());
+        }
+    }
+    Ok(obs.label("combined").label_if(rt > 0, "with-roundtripped-copy"))
+}
+
+// ---------------------------------------------------------------------------------------------
+// Encoding
+// ---------------------------------------------------------------------------------------------
+
+#[derive(Clone, Debug, Default)]
+pub struct BytesObs {
+    pub accepted: bool,
+    pub header_version: u32,
+    /// The only difference between the parsed value and its own round trip is the Sapling anchor of a
+    /// spend-less bundle turning from absent into `Some([0; 32])` (known finding).
+    pub sapling_anchor_placeholder: bool,
+    pub effects_ok: bool,
+}
+
+fn header_version(bytes: &[u8]) -> u32 {
+    u32::from_le_bytes(bytes[4..8].try_into().unwrap())
+}
+
+fn without_sapling_anchor(p: &Pczt) -> Pczt {
+    pczt::roles::redactor::Redactor::new(p.clone()).redact_sapling_with(|mut s| s.clear_anchor()).finish()
+}
+
+/// Byte-level oracle (no harness context, reusable by a fuzz target): `Pczt::parse` never panics; if
+/// it accepts, the value serialises, its serialisation is accepted again and is a fixed point, the
+/// minimal-version rule holds, the re-parsed value equals the parsed one, and computing the effects
+/// does not panic.
+pub fn check_pczt_bytes(bytes: &[u8]) -> Result<BytesObs, Fail> {
+    let mut obs = BytesObs::default();
+    let parsed = catch(|| Pczt::parse(bytes)).map_err(|p| Fail::new("parse-panic", format!("Pczt::parse panicked on {} bytes: {p}", bytes.len())))?;
+    let p = match parsed {
+        Err(_) => return Ok(obs),
+        Ok(p) => p,
+    };
+    obs.accepted = true;
+    let s1 = catch(|| p.clone().serialize())
+        .map_err(|e| Fail::new("serialize-panic", format!("serialize panicked on an accepted PCZT: {e}")))?
+        .map_err(|e| Fail::new("accepted-not-serializable", format!("serialize failed on an accepted PCZT: {e:?}")))?;
+    vensure!(s1.len() >= 8 && &s1[..4] == b"PCZT", "bad-header", "serialisation does not start with the magic");
+    obs.header_version = header_version(&s1);
+    let v1 = catch(|| pczt::v1::Pczt::try_from(p.clone())).map_err(|e| Fail::new("serialize-panic", format!("v1 conversion panicked: {e}")))?;
+    match (&v1, obs.header_version) {
+        (Ok(v1), 1) => vensure!(v1.serialize() == s1, "version-not-minimal", "header says v1 but the bytes are not the v1 encoding"),
+        (Err(_), 2) => {}
+        (Ok(_), v) => vfail!("version-not-minimal", "the v1 encoding can represent this PCZT but serialize() chose version {v}"),
+        (Err(e), v) => vfail!("version-not-minimal", "serialize() chose version {v} although the v1 conversion fails with {e:?}"),
+    }
+    let p2 = catch(|| Pczt::parse(&s1))
+        .map_err(|e| Fail::new("parse-panic", format!("Pczt::parse panicked on a serialisation: {e}")))?
+        .map_err(|e| Fail::new("own-encoding-rejected", format!("serialize() output is rejected by parse: {e:?}")))?;
+    let s2 = p2.clone().serialize().map_err(|e| Fail::new("accepted-not-serializable", format!("{e:?}")))?;
+    vensure!(s1 == s2, "reserialize-not-fixed-point", "serialize(parse(serialize(p))) != serialize(p) ({} vs {} bytes)", s2.len(), s1.len());
+    // value equality through the forced-v2 bytes
+    let (a, b) = (ser2(&p), ser2(&p2));
+    if a != b {
+        let placeholder = obs.header_version == 1
+            && p.sapling().spends().is_empty()
+            && p.sapling().anchor().is_none()
+            && *p2.sapling().anchor() == Some([0u8; 32])
+            && ser2(&without_sapling_anchor(&p)) == ser2(&without_sapling_anchor(&p2));
+        if placeholder {
+            obs.sapling_anchor_placeholder = true;
+        } else {
+            vfail!(
+                "roundtrip-value-changed",
+                "parse(serialize(p)) is not p (forced-v2 bytes {} vs {}): {}",
+                b.len(),
+                a.len(),
+                first_diff(&format!("{p2:#?}"), &format!("{p:#?}"))
+            );
+        }
+    }
+    // the forced-v2 encoding is accepted and is a fixed point too
+    let p3 = Pczt::parse(&a).map_err(|e| Fail::new("own-encoding-rejected", format!("forced v2 bytes are rejected by parse: {e:?}")))?;
+    vensure!(ser2(&p3) == a, "reserialize-not-fixed-point", "forced-v2 bytes are not a fixed point");
+    // `pczt_txid` documents `Err(TxIdError::Effects)` for a PCZT that parses but whose bundles are
+    // malformed: it must not panic, and the answer survives the round trip
+    let txid_panic = |e: String| Fail::new(format!("txid-panic-on-malformed-bundle:{}", dep_site(&e)), format!("pczt_txid / into_effects panicked on a PCZT accepted by parse: {e}"));
+    let e1 = catch(|| pczt_txid(&p)).map_err(txid_panic)?;
+    let e2 = catch(|| pczt_txid(&p2)).map_err(txid_panic)?;
+    if !obs.sapling_anchor_placeholder {
+        vensure_eq!(e1, e2, "roundtrip-txid-changed", "txid before/after a serialisation round trip");
+    } else if let (Ok(a), Ok(b)) = (&e1, &e2) {
+        vensure_eq!(a, b, "roundtrip-txid-changed", "txid before/after a serialisation round trip");
+    }
+    obs.effects_ok = e1.is_ok();
+    Ok(obs)
+}
+
+#[derive(Clone, Debug)]
+struct Mutation {
+    kind: u8,
+    pos: u32,
+    val: u8,
+    len: u8,
+}
+
+#[derive(Clone, Debug)]
+struct EncodingCase {
+    copy: CombineCase,
+    muts: Vec<Vec<Mutation>>,
+    junk: Vec<u8>,
+    junk_version: u8,
+}
+
+fn arb_encoding_case() -> impl Strategy<Value = EncodingCase> {
+    let m = (0u8..8, any::<u32>(), any::<u8>(), 1u8..12).prop_map(|(kind, pos, val, len)| Mutation { kind, pos, val, len });
+    (
+        arb_combine_case(),
+        prop::collection::vec(prop::collection::vec(m, 1..4), 6..14),
+        prop::collection::vec(any::<u8>(), 0..200),
+        0u8..4,
+    )
+        .prop_map(|(copy, muts, junk, junk_version)| EncodingCase { copy, muts, junk, junk_version })
+}
+
+fn mutate(orig: &[u8], ms: &[Mutation]) -> Vec<u8> {
+    let mut b = orig.to_vec();
+    for m in ms {
+        if b.is_empty() {
+            break;
+        }
+        // positions: half of the time inside the first 600 bytes (global + transparent + headers)
+        let span = if m.val & 1 == 0 { b.len().min(600) } else { b.len() };
+        let pos = pick_index(m.pos, span);
+        match m.kind {
+            0 => b[pos] ^= 1 << (m.val % 8),
+            1 => b[pos] = m.val,
+            2 => b[pos] = b[pos].wrapping_add(1),
+            3 => b[pos] = b[pos].wrapping_sub(1),
+            4 => b.truncate(pos),
+            5 => {
+                let ins: Vec<u8> = (0..m.len).map(|i| m.val.wrapping_mul(i + 1)).collect();
+                b.splice(pos..pos, ins);
+            }
+            6 => {
+                let end = (pos + m.len as usize).min(b.len());
+                b.drain(pos..end);
+            }
+            _ => {
+                // flip the encoding version in the header
+                if b.len() >= 8 {
+                    b[4] = if b[4] == 1 { 2 } else { 1 };
+                }
+            }
+        }
+    }
+    b
+}
+
+fn check_encoding(ctx: &Ctx, c: &EncodingCase) -> CaseResult {
+    let nb = n_bases(ctx);
+    let bidx = pick_index(c.copy.base_sel, nb) as u32;
+    let b: Arc<Base> = base::base(ctx.seed, bidx);
+    let mut one = c.copy.clone();
+    one.conflict = None;
+    let recipes = build_recipes(&b, &one);
+    let r = &recipes[0];
+    let desc = || format!("base {bidx} {:?}; fin={:?} {:?}", b.shape, r.fin, r.st);
+    let p = materialise(&b, r).map_err(|f| Fail::new(f.signature, format!("{} [{}]", f.msg, desc())))?;
+    let bytes = p.clone().serialize().map_err(|e| Fail::new("accepted-not-serializable", format!("{e:?} [{}]", desc())))?;
+    let obs = check_pczt_bytes(&bytes).map_err(|f| Fail::new(f.signature, format!("{} [{}]", f.msg, desc())))?;
+    vensure!(obs.accepted, "own-encoding-rejected", "parse rejects serialize() output [{}]", desc());
+    let parsed = Pczt::parse(&bytes).unwrap();
+    let mut known_placeholder = false;
+    if ser2(&parsed) != ser2(&p) {
+        // the only tolerated difference is the known placeholder finding, classified exactly
+        let explained = obs.header_version == 1
+            && p.sapling().spends().is_empty()
+            && p.sapling().anchor().is_none()
+            && *parsed.sapling().anchor() == Some([0u8; 32])
+            && ser2(&without_sapling_anchor(&parsed)) == ser2(&without_sapling_anchor(&p));
+        if explained {
+            if !ctx.known_hit("v1-sapling-absent-anchor-placeholder") {
+                vfail!(
+                    "v1-sapling-absent-anchor-placeholder",
+                    "a v5 PCZT whose spend-less Sapling bundle has no anchor is serialised as v1 and parses back with sapling.anchor = Some([0; 32]) [{}]",
+                    desc()
+                );
+            }
+            known_placeholder = true;
+        } else {
+            vfail!(
+                "roundtrip-value-changed",
+                "parse(serialize(p)) is not p: {} [{}]",
+                first_diff(&format!("{parsed:#?}"), &format!("{p:#?}")),
+                desc()
+            );
+        }
+    }
+    // the minimal-version rule, predicted from the recipe: v1 iff v5 transaction, every Orchard action
+    // carries cv_net, cmx and an encrypted note plaintext, and no non-empty bundle lacks its anchor
+    let o_compacted = (0..b.n_oact as u8).any(|i| {
+        r.eff(&b, &Key::OAct(recipe::Pool::Orchard, i, OA::CvNet)) == Eff::Absent
+            || r.eff(&b, &Key::OAct(recipe::Pool::Orchard, i, OA::Cmx)) == Eff::Absent
+            || r.eff(&b, &Key::OAct(recipe::Pool::Orchard, i, OA::EncRepr)) == Eff::Val(1)
+    });
+    let o_anchor_missing = b.n_oact > 0 && r.eff(&b, &Key::OAnchor(recipe::Pool::Orchard)) == Eff::Absent;
+    let s_anchor_missing = b.n_sspend > 0 && r.eff(&b, &Key::SAnchor) == Eff::Absent;
+    let predict_v1 = b.shape.fmt == base::Fmt::V5 && !o_compacted && !o_anchor_missing && !s_anchor_missing;
+    vensure_eq!(
+        obs.header_version,
+        if predict_v1 { 1 } else { 2 },
+        "version-not-minimal",
+        "encoding version chosen by serialize() vs the version the content needs [{}]",
+        desc()
+    );
+    if let Some(t) = txid_of(&p) {
+        vensure_eq!(t, b.txid_parts, "copy-txid-changed", "copy implies another transaction id [{}]", desc());
+        vensure_eq!(
+            zcash_pool_migration::pczt_txid::stored_pczt_txid(&bytes).ok(),
+            Some(t),
+            "roundtrip-txid-changed",
+            "stored_pczt_txid(bytes) vs pczt_txid(value) [{}]",
+            desc()
+        );
+    }
+    // mutated encodings (of the native and of the forced-v2 bytes) and junk behind a valid header
+    let forced2 = ser2(&p);
+    let mut accepted = 0u64;
+    let mut rejected = 0u64;
+    let mut effects = 0u64;
+    let mut placeholder = 0u64;
+    let mut known_panics = 0u64;
+    for (i, ms) in c.muts.iter().enumerate() {
+        let src = if i % 2 == 0 { &bytes } else { &forced2 };
+        let m = mutate(src, ms);
+        let o = match check_pczt_bytes(&m) {
+            Ok(o) => o,
+            // a listed panic site: reported as KNOWN-FINDING, the search continues behind it
+            Err(f) if f.signature.starts_with("txid-panic-on-malformed-bundle:") && ctx.known_hit(&f.signature) => {
+                known_panics += 1;
+                continue;
+            }
+            Err(f) => {
+                return Err(Fail::new(
+                    f.signature,
+                    format!("{} (mutation {ms:?} of the {} bytes; mutant {}) [{}]", f.msg, if i % 2 == 0 { "native" } else { "forced-v2" }, hex::encode(&m), desc()),
+                ))
+            }
+        };
+        if o.accepted {
+            accepted += 1;
+            effects += o.effects_ok as u64;
+            placeholder += o.sapling_anchor_placeholder as u64;
+            // combining the original with an accepted mutant never panics
+            let mp = Pczt::parse(&m).unwrap();
+            let _ = combine(vec![p.clone(), mp.clone()])?;
+            let _ = combine(vec![mp, p.clone()])?;
+        } else {
+            rejected += 1;
+        }
+    }
+    let mut junk = b"PCZT".to_vec();
+    junk.extend_from_slice(&(c.junk_version as u32).to_le_bytes());
+    junk.extend_from_slice(&c.junk);
+    let o = check_pczt_bytes(&junk).map_err(|f| Fail::new(f.signature, format!("{} (junk {})", f.msg, hex::encode(&junk))))?;
+    accepted += o.accepted as u64;
+    for cut in [0usize, 3, 4, 7, 8, 9] {
+        let o = check_pczt_bytes(&bytes[..cut.min(bytes.len())])?;
+        vensure!(!o.accepted, "truncated-accepted", "a {cut}-byte prefix is accepted as a PCZT");
+    }
+    if placeholder > 0 && !ctx.known_hit("v1-sapling-absent-anchor-placeholder") {
+        vfail!("v1-sapling-absent-anchor-placeholder", "an accepted mutant shows the v1 Sapling anchor placeholder [{}]", desc());
+    }
+    Ok(Obs::new(r.st.values().any(|s| *s != St::Keep) || r.fin.is_some())
+        .key(hash64(format!("{bidx}|{:?}|{:?}|{:?}", r.fin, r.st, c.muts).as_bytes()))
+        .count("mutants-accepted", accepted)
+        .count("mutants-rejected", rejected)
+        .count("mutants-accepted-with-effects", effects)
+        .count("mutants-hitting-known-panic", known_panics)
+        .label(if obs.header_version == 1 { "encoded-v1" } else { "encoded-v2" })
+        .label_if(b.shape.fmt == base::Fmt::V5 && obs.header_version == 2, "v5-forced-to-v2")
+        .label_if(known_placeholder, "known-placeholder"))
+}
+
+/// "payload @ /root/.cargo/registry/src/<index>/crate-1.2.3/src/x.rs:207" -> "crate-1.2.3/src/x.rs"
+fn dep_site(p: &str) -> String {
+    let loc = p.rsplit_once(" @ ").map(|(_, l)| l).unwrap_or(p);
+    let file = loc.rsplit_once(':').map(|(f, _)| f).unwrap_or(loc);
+    match file.split_once(".cargo/registry/src/") {
+        Some((_, rest)) => rest.split_once('/').map(|(_, r)| r.to_string()).unwrap_or_else(|| rest.to_string()),
+        None => file.trim_start_matches("/repo/").to_string(),
+    }
+}
+
+fn first_diff(a: &str, b: &str) -> String {
+    for (la, lb) in a.lines().zip(b.lines()) {
+        if la != lb {
+            return format!("got `{}` expected `{}`", la.trim(), lb.trim());
+        }
+    }
+    format!("line counts {} / {}", a.lines().count(), b.lines().count())
+}
+
+fn main() {
+    if let Ok(d) = std::env::var("C13_DUMP") {
+        // developer aid: print one base PCZT
+        let seed: u64 = std::env::var("VERIF_SEED").ok().and_then(|s| s.parse().ok()).unwrap_or(1);
+        let b = base::base(seed, d.parse().unwrap());
+        println!("{:?}\n{:#?}", b.shape, b.pczt);
+        return;
+    }
+    let ctx = Ctx::from_args("C13", "exploration");
+    ctx.set_rule("scaffold");
+    {
+        let c2 = ctx.clone();
+        ctx.run_prop("combine", arb_combine_case, ctx.tier.pick(2_600, 150_000), move |c| check_combine(&c2, c));
+    }
+    {
+        let c2 = ctx.clone();
+        ctx.run_prop("encoding", arb_encoding_case, ctx.tier.pick(2_400, 120_000), move |c| check_encoding(&c2, c));
+    }
+    let _ = BTreeMap::<u8, u8>::new();
+    ctx.finish();
 }
